@@ -53,7 +53,7 @@ fn st_no_parent_inert() {
 #[kani::unwind(3)]
 fn st_scope_frame() {
     let outer = any_item(true);
-    let inner = any_item(true);
+    let inner = any_item(kani::any()); // the inner scope may belong to an unsampled trace
     let mut st = LocalSpanStack::with_capacity(4);
     let _h_outer = st.register_span_line(Some(vec![outer])).unwrap();
     let before = context(&st);
@@ -67,7 +67,28 @@ fn st_scope_frame() {
     assert!(spans.is_empty(), "inner scope collected spans it did not record");
     assert!(context(&st) == before, "closing the inner scope did not restore the outer context");
     std::mem::forget((spans, tok, st));
-    kani::cover!(true);
+    kani::cover!(inner.is_sampled);
+    kani::cover!(!inner.is_sampled);
+}
+
+// C10: the same for a scope that belongs to no trace (empty token: a span created from no-op
+// parents only, set as local parent) and for a collector scope (no token).
+#[kani::proof]
+#[kani::unwind(3)]
+fn st_scope_frame_traceless() {
+    let outer = any_item(true);
+    let mut st = LocalSpanStack::with_capacity(4);
+    let _h_outer = st.register_span_line(Some(vec![outer])).unwrap();
+    let before = context(&st);
+    let collector: bool = kani::any();
+    let h_inner = st.register_span_line(if collector { None } else { Some(Vec::new()) }).unwrap();
+    assert!(context(&st).0 == 2);
+    let r = st.unregister_and_collect(h_inner);
+    assert!(r.is_some(), "closing a scope must hand its (empty) content back");
+    assert!(context(&st) == before, "closing a traceless / collector scope did not restore the outer context");
+    std::mem::forget((r, st));
+    kani::cover!(collector);
+    kani::cover!(!collector);
 }
 
 // C10: a span entered and exited in a scope leaves the scope's context as it was.
@@ -120,4 +141,10 @@ pub(crate) fn depth(st: &LocalSpanStack) -> usize {
 }
 pub(crate) fn top_records(st: &LocalSpanStack) -> Option<&crate::util::RawSpans> {
     st.span_lines.last().map(crate::local::local_span_line::verif_harness::line_records)
+}
+/// Push a pre-built scope (as `register_span_line` would have left it after some recording).
+pub(crate) fn push_line(st: &mut LocalSpanStack, line: SpanLine) -> SpanLineHandle {
+    let epoch = line.span_line_epoch();
+    st.span_lines.push(line);
+    SpanLineHandle { span_line_epoch: epoch }
 }
